@@ -2,7 +2,10 @@ SPECIFICATION Spec
 CONSTANTS
   Seeds <- SeedsDef
   Worlds <- WorldsDef
+  PriorOpts <- PriorOptsDef
   NFiles = 3
   MaxPrior = 2
 INVARIANT Deterministic
+INVARIANT WarmSame
 INVARIANT Emit
+CHECK_DEADLOCK FALSE
